@@ -571,15 +571,21 @@ func pad(c ugo.Call, left bool) (ugo.Object, error) {
 		return ugo.Undefined,
 			ugo.NewArgumentTypeError("2nd", "int", c.Get(1).TypeName())
 	}
-	diff := padLen - len(s)
-	if diff <= 0 {
+	// compare before subtracting: padLen - len(s) overflows for a very
+	// negative padLen
+	if padLen <= len(s) {
 		return ugo.String(s), nil
 	}
+	diff := padLen - len(s)
 	padWith := " "
 	if size > 2 {
 		if padWith = c.Get(2).String(); len(padWith) == 0 {
 			return ugo.String(s), nil
 		}
+	}
+	if padLen > maxStringLen {
+		return ugo.Undefined, ugo.ErrIndexOutOfBounds.NewError(
+			"pad: result length exceeds " + strconv.Itoa(maxStringLen))
 	}
 	r := (diff-len(padWith))/len(padWith) + 2
 	if r <= 0 {
